@@ -186,7 +186,8 @@ ASMJIT_FAVOR_SIZE Error init_func_detail(FuncDetail& func, const FuncSignature& 
           else {
             uint32_t size = Support::max<uint32_t>(TypeUtils::size_of(type_id), min_stack_arg_size);
             if (size >= 8) {
-              stack_offset = Support::align_up(stack_offset, 8);
+              // 128-bit vectors are aligned to 16 bytes, everything else to 8 bytes.
+              stack_offset = Support::align_up(stack_offset, size >= 16u ? 16u : 8u);
             }
             arg.assign_stack_offset(int32_t(stack_offset));
             stack_offset += size;
